@@ -600,6 +600,26 @@ pub fn run_case(case: &Value, keys: &Keys) -> Value {
                     }
                 }
             }
+            // after a block that already put a public key in the token's table (the ids of this block's keys are then
+            // offsets into the token-wide table, not into the block's own list), and appended twice (the second copy
+            // declares no key of its own)
+            if let Ok(base2) = BiscuitBuilder::new()
+                .code(&format!("user(\"alice\"); check if user($u) trusting {}", keys.ext[1].public()))
+                .and_then(|b| b.build(&keys.root))
+            {
+                if let Ok(t1) = base2.append(block_builder(&item)) {
+                    paths.insert("appended after a block with a key, verified token".into(), json!(t1.print_block_source(1).unwrap_or_default()));
+                    if let Ok(u) = biscuit_auth::UnverifiedBiscuit::from(t1.to_vec().unwrap()) {
+                        paths.insert("appended after a block with a key, unverified token".into(), json!(u.print_block_source(1).unwrap_or_default()));
+                    }
+                    if let Ok(t2) = t1.append(block_builder(&item)) {
+                        paths.insert("appended twice, second copy, verified token".into(), json!(t2.print_block_source(2).unwrap_or_default()));
+                        if let Ok(u) = biscuit_auth::UnverifiedBiscuit::from(t2.to_vec().unwrap()) {
+                            paths.insert("appended twice, second copy, unverified token".into(), json!(u.print_block_source(2).unwrap_or_default()));
+                        }
+                    }
+                }
+            }
             let paths = Value::Object(paths);
             match BlockBuilder::new().code(&text) {
                 Ok(bb2) => {
